@@ -542,7 +542,7 @@ func clip(b []byte) string {
 }
 
 func TestBatches(t *testing.T) {
-	rt.Check(t, 600, 60000, func(t *rapid.T) {
+	rt.Check(t, 600, 400000, func(t *rapid.T) {
 		b := genBatch(t)
 		if msg := runBatch(b, false); msg != "" {
 			t.Fatalf("%s\nbatch: %s", msg, b.render())
